@@ -27,6 +27,7 @@ package main
 //   calls     PRNG signatures (1-5 params, 0-3 results, variadic tails) x
 //             argument tuples x the four call shapes
 //   named, empty, cbconc: see c11_ext.go
+//   selector, slotarg: see c11_r4.go
 //
 // Outside the statement (kept out of the generator's domain or accepted both
 // ways; each place is marked UNSPECIFIED):
@@ -2413,10 +2414,12 @@ func init() {
 		ID: "C11",
 		Plan: func(tier string) fw.Plan {
 			nCalls, nMember, nCb, rtRounds := 1000, 150, 300, 2
+			nSel, nSlot := 10, 200
 			// the -race flavour of cbconc costs a second build of the worker: thorough tier only
 			nNamed, nConc, nConcRace, namedChunk := len(c11NamedTypes), 3*len(c11ConcVariants), 0, 1
 			if tier == "thorough" {
 				nCalls, nMember, nCb, rtRounds = 40000, 6000, 15000, 20
+				nSel, nSlot = 300, 5000
 				nNamed, nConc, nConcRace, namedChunk = 25*len(c11NamedTypes), 60*len(c11ConcVariants), 5*len(c11ConcVariants), 5
 			}
 			plan := fw.Plan{
@@ -2428,12 +2431,17 @@ func init() {
 					"named: " + strconv.Itoa(len(c11NamedTypes)) + " travellers (named types of every basic kind with value- and pointer-receiver methods, json.Number, time.Duration, unnamed controls) x 21 Go locations (fields behind pointers, typed slice/array elements, map values, interface slots, pointees) x " + strconv.Itoa(len(c11Hops)) + " binding hops x every sink (read back, Go interface{}/typed/variadic parameter, Go container, value/pointer-receiver method), complete per case with PRNG values. " +
 					"empty: " + strconv.Itoa(len(c11EmptySrcs)) + " empty/nil container sources (script and Go, nested one level) x every field type of C11Doc x parameter / second parameter / variadic element / spread / method parameter / field write / callback result (complete). " +
 					"cbconc: one adapted callback invoked from 4-12 goroutines x 400-900 calls each with pairwise distinct arguments, 8 callback types; each invocation compares the echo with what it passed (thorough tier: the same cases once more in a -race build, phase cbconc-race). " +
+					"selector: " + strconv.Itoa(len(c11HidTypes)) + " struct types whose methods (own and promoted, value and pointer receiver, variadic, several results) have the name of a field promoted from a deeper embedded struct, and one whose field hides a promoted method, x 14 holders (pointer, value, in list / map / typed slice, field behind a pointer and of a value, Go result, assigned name) x call / call through a method value / bare name / explicit-path field reads and a write; fields and a method promoted through an embedded POINTER read, written and called through 21 holders of the outer struct, addressable or not (complete per case, PRNG contents). " +
+					"slotarg: per case 44 slot operands (elements of script lists, typed Go slices, nested lists, arrays and slices behind a pointer, fields behind a pointer / of a struct in a slice, pointees, map values; scalar, string, struct, slice, map, pointer and interface content, nil included) each passed as argument in a PRNG call (fixed / variadic x plain / spread, functions and two methods, typed and interface{} parameters and tails, 1/6 deferred) in which a LATER argument stores into the slot (script closure, inline script function, Go host function, ++ / +=, the spread operand itself) - reads before the store must supply the old value, reads after it the new one; 1/6 of the calls have no store. " +
 					"An evaluation is non-trivial when the statement decides the case (conversion exists for all arguments, or none exists for one); distinct = distinct (Go signature, source text, argument values).",
 				Assumptions: []string{"reflect.Type.AssignableTo/ConvertibleTo and reflect.Value.Convert are 'Go's own conversion'",
 					"string->byte/rune parameters, pointer->other-pointer conversions, arrays, over-long spread lists, VM-protocol-typed Go functions are outside the statement and not judged",
 					"identity of func values is not observable through reflect; nil-ness and (for func(int64) int64 travellers) behaviour are compared",
 					"a script list or map of length 0 is an empty NON-nil value: its element-wise conversion must arrive non-nil; for a typed nil Go slice/map converted element-wise nil and empty are both accepted; the variadic tail the call builds itself is never judged for nil-ness",
 					"cbconc judges values only: whether a defective adapter shows depends on the schedule, a correct one is accepted under every schedule; the script function touches no shared script state",
+					"slotarg relies on operands being evaluated left to right (property C07): the argument an expression supplies is its value at that moment; whether a script store took place is read back from the Go slot (inconclusive otherwise)",
+					"selector: which member a name denotes follows Go's selector rule (shallowest depth); assignments to a name that denotes a method, direct fields of a struct not reached through a pointer, and WHEN the receiver of a value-receiver method value is copied are not judged",
+					"kept out of the domain until /repo is repaired (constants c11PendingFix_* in c11_r4.go, reported in C11-r4-genuine.md): a pointer-receiver method that hides a promoted field called on a struct VALUE; a nil of a non-empty interface type read from an addressable typed slot and passed to an interface-typed parameter it is assignable to",
 					"kept out of the domain until /repo is repaired (constants c11PendingFix_* in c11_ext.go, reported in C11-genuine.md): pointer-receiver methods of non-struct named types on non-pointer values, a spread list that has to fill fixed parameters of a variadic function, array-typed parameters, fields promoted through a nil embedded pointer"},
 				Phases: []fw.Phase{
 					{Name: "fixed", Cases: c11NFixed, Chunk: 1, Exhaust: true, TimeoutS: 300},
@@ -2445,6 +2453,8 @@ func init() {
 					{Name: "named", Cases: nNamed, Chunk: namedChunk, TimeoutS: 900},
 					{Name: "empty", Cases: reflect.TypeOf(C11Doc{}).NumField(), Chunk: 1, Exhaust: true, TimeoutS: 600},
 					{Name: "cbconc", Cases: nConc, Chunk: 4, TimeoutS: 900},
+					{Name: "selector", Cases: nSel, Chunk: 2, TimeoutS: 600},
+					{Name: "slotarg", Cases: nSlot, Chunk: 25, TimeoutS: 900},
 				},
 			}
 			if nConcRace > 0 {
@@ -2472,6 +2482,10 @@ func init() {
 				c11PhaseEmpty(c)
 			case "cbconc", "cbconc-race":
 				c11PhaseCbConc(c)
+			case "selector":
+				c11PhaseSelector(c)
+			case "slotarg":
+				c11PhaseSlotArg(c)
 			}
 		},
 	})
